@@ -1,6 +1,9 @@
 import ChythonModel.Gen.HashSites
 import ChythonModel.Spec.SetSites
 import ChythonModel.Py.Hash
+import ChythonModel.Proofs.C19Binary
+import ChythonModel.Proofs.C19Rename
+import ChythonModel.Proofs.C19Probe
 /-!
 # C19 — results identical across processes, hash seeds, repeated calls, copies
 
@@ -11,8 +14,11 @@ a listed int-only site — except the two `__hash__ = hash(str(self))` methods o
 property does not list among the compared outputs (and whose *equality* is string equality).  `set_order_sites_reviewed`
 ties the regenerated list of order-sensitive set uses to the reviewed list.  The seed-free hash model used by the
 C01/C17 models has, by construction, no seed parameter; `pyHashInt_ne_neg_one` and `pyHashInt_bounds` are CPython's
-contract for it.  Everything else (process state, CPython's set iteration, caches, copies) is decided by the runtime
-correspondence under varied `PYTHONHASHSEED` — labelled translation_validation.
+contract for it.  CPython's `set` for int keys is the executable model `Py/IntSet.lean` (second half of this file:
+refinement of the documented finite-set semantics, pop, determinism, dependence on hashes and history only, key kinds
+of the reviewed sites), compared with real sets on every run.  Everything else (process state, caches, copies) is
+decided by the runtime correspondence under varied `PYTHONHASHSEED` and over read/perturb/read histories — labelled
+translation_validation.
 -/
 namespace ChythonModel.Props.C19
 open ChythonModel.Gen ChythonModel.Spec ChythonModel.Py
@@ -70,5 +76,134 @@ theorem pyHashInt_small (n : Int) (h0 : 0 ≤ n) (h1 : n < 2 ^ 61 - 1) : pyHashI
   · omega
 
 example : pyHashTuple [1, 2, 3] = 529344067295497451 := by decide +kernel
+
+/-! ## the CPython `set` model for int keys (`Py/IntSet.lean`, run by `Drivers/C19.lean` against real sets on every run)
+
+`Represents s A` = the table invariant `TWF s.table` (every stored key is found by `set_lookkey` at the slot that stores
+it: so at most one live slot per key, and no virgin slot before a key on its probe sequence) together with
+`∀ x, Mem s.table x ↔ A x` for the abstract set `A` of `Spec/PySetSemantics.lean`.  `Counts s` = `used` / `fill` are the
+numbers of stored keys / of non-virgin slots. -/
+
+open ChythonModel.Py.IntSet ChythonModel.Spec.PySet
+
+/-- FULL statement of the refinement: for every history the model run is defined and refines the documented semantics. -/
+def SetHistoryRefines : Prop :=
+  ∀ ops : List SetOp, ∃ s os, empty.runOps ops = some (s, os) ∧
+    Represents s (absRun aEmpty ops os) ∧ Counts s ∧ obsLegalRun aEmpty ops os
+
+/-- (a) Refinement, proved part: whenever the model run of a history is defined — i.e. no scan ran out of fuel or left
+the table (the model's stand-in for CPython's unbounded probe loop; excluded: the proof that `fuelFor` always suffices,
+which needs the full period of `i ↦ 5i+1 mod 2^k`; a `fail` answer of the driver is a disagreement of the
+correspondence) — the final table satisfies the invariant, its members are exactly those the documentation prescribes,
+the counters are exact, and every observation was legal (`pop` returned a member; KeyError only on the empty set).
+No element is lost or duplicated by probing, free-slot reuse, resizing or the dummy purge. -/
+theorem set_history_refines_partial (ops : List SetOp) (s : IntSet) (os : List Obs)
+    (h : empty.runOps ops = some (s, os)) :
+    Represents s (absRun aEmpty ops os) ∧ Counts s ∧ obsLegalRun aEmpty ops os :=
+  runOps_full ops empty_represents empty_counts h
+
+/-- the hypothesis is satisfiable by a non-trivial history (a resize, a dummy, free-slot reuse, a pop, negative and
+≥ 2⁶¹ keys) -/
+example : (empty.runOps [.updateIter [1, 9, 17, -5, 2 ^ 61, 33], .discard 9, .add 25, .pop, .differenceUpdate [1, 7]]).map
+    (fun r => (r.1.toList, r.2)) = some ([2 ^ 61, 33, 17, 25, -5], [.none, .none, .none, .popped 1, .none]) := by
+  decide +kernel
+
+/-- what the observers see after a history: membership tests, iteration and `len` agree with the abstract set -/
+theorem set_history_observers (ops : List SetOp) (s : IntSet) (os : List Obs)
+    (h : empty.runOps ops = some (s, os)) :
+    (∀ x b, s.contains x = some b → (b = true ↔ absRun aEmpty ops os x)) ∧
+    s.toList.Nodup ∧ (∀ x, x ∈ s.toList ↔ absRun aEmpty ops os x) ∧ s.used = s.toList.length := by
+  obtain ⟨⟨hw, hm⟩, hc, _⟩ := runOps_full ops empty_represents empty_counts h
+  refine ⟨fun x b hb => (contains_spec hw hb).trans (hm x), nodup_activeKeys hw,
+    fun x => mem_activeKeys.trans (hm x), ?_⟩
+  rw [hc.1]
+  exact (activeKeys_length s.table).symm
+
+/-- (b) `pop` returns a member and removes exactly it; it raises KeyError exactly on the empty set -/
+theorem set_pop_returns_member_and_removes_it (s : IntSet) (h : Inv s) :
+    (∀ k s', s.pop = some (.popped k s') →
+      Mem s.table k ∧ Inv s' ∧ ∀ x, Mem s'.table x ↔ (Mem s.table x ∧ x ≠ k)) ∧
+    (s.pop = some .keyError → ∀ x, ¬ Mem s.table x) := by
+  refine ⟨fun k s' hp => ?_, fun hp => pop_keyError h.2 hp⟩
+  obtain ⟨a, b, c⟩ := pop_spec h.1 hp
+  exact ⟨a, ⟨b, pop_counts h.2 hp⟩, c⟩
+
+example : Inv IntSet.empty := empty_inv
+
+/-- `set_merge` (`copy()`, `set(s)`, `update(s)`): all three paths (verbatim table copy, clean insertion, normal
+insertion) give the union and keep the invariant -/
+theorem set_merge_is_union (so other r : IntSet) (h : Inv so) (ho : Inv other) (hm : so.merge other = some r) :
+    Inv r ∧ ∀ x, Mem r.table x ↔ aUnion (Mem so.table) (Mem other.table) x :=
+  merge_spec h ho hm
+
+theorem set_copy_same_members (s r : IntSet) (h : Inv s) (hc : s.copy = some r) :
+    Inv r ∧ ∀ x, Mem r.table x ↔ Mem s.table x := copy_spec h hc
+
+theorem set_union_refines (a b r : IntSet) (ha : Inv a) (hb : Inv b) (hu : a.union b = some r) :
+    Inv r ∧ ∀ x, Mem r.table x ↔ aUnion (Mem a.table) (Mem b.table) x := union_spec ha hb hu
+
+/-- `&` between two sets (either of them a modelled table or an observed container), whichever operand is iterated -/
+theorem set_intersection_refines (so other : View) (A B : ASet) (ha : so.Denotes A) (hb : other.Denotes B) (r : IntSet)
+    (hi : interSet so other = some r) : Inv r ∧ ∀ x, Mem r.table x ↔ aInter A B x := interSet_spec ha hb hi
+
+theorem set_intersection_iterable_refines (so : View) (A : ASet) (ha : so.Denotes A) (ks : List Int) (r : IntSet)
+    (hi : interIter so ks = some r) : Inv r ∧ ∀ x, Mem r.table x ↔ aInter A (· ∈ ks) x := interIter_spec ha ks hi
+
+/-- `-` / `difference`: both strategies (copy and discard; filter into a fresh set) -/
+theorem set_difference_refines (so : IntSet) (other : View) (B : ASet) (h : Inv so) (hb : other.Denotes B) (sized : Bool)
+    (r : IntSet) (hd : so.difference other sized = some r) : Inv r ∧ ∀ x, Mem r.table x ↔ aDiff (Mem so.table) B x :=
+  difference_spec h hb sized hd
+
+/-- a modelled set, and an observed container given by its iteration order, are legitimate operands -/
+theorem set_views_denote (s : IntSet) (h : Inv s) (ks : List Int) :
+    s.view.Denotes (Mem s.table) ∧ (View.ofList ks).Denotes (· ∈ ks) := ⟨view_denotes h, ofList_denotes ks⟩
+
+/-- (c) Determinism: pop results and iteration order are a function of the history of keys and nothing else — the
+model has no other input (no seed, no address, no clock), and `hashBits` is `pyHashInt`, which has no seed.  Stated
+because this is the form in which the property uses the model: two runs (two processes, two PYTHONHASHSEED values)
+that perform the same history observe the same pops and the same order. -/
+theorem set_iteration_order_function_of_history (ops₁ ops₂ : List SetOp) (s₁ s₂ : IntSet) (os₁ os₂ : List Obs)
+    (h₁ : empty.runOps ops₁ = some (s₁, os₁)) (h₂ : empty.runOps ops₂ = some (s₂, os₂)) (he : ops₁ = ops₂) :
+    os₁ = os₂ ∧ s₁.toList = s₂.toList := by
+  subst he
+  rw [h₁] at h₂
+  simp at h₂
+  exact ⟨h₂.2, by rw [h₂.1]⟩
+
+/-- (c′) The model reads a key only through its hash (`hashBits`, the start of the probe sequence) and through
+equality: for every injective renaming `φ` of the keys that preserves the hashes, the renamed history produces the
+renamed observations and the renamed iteration order — slot for slot the same table.  This is the statement
+"CPython's set order is a function of the element hashes and the operation history" for the model; with
+`hash(int)` seed free (`pyHashInt`) it gives process independence. -/
+theorem set_order_depends_on_hashes_and_history_only (φ : Int → Int) (h : HashIso φ) (ops : List SetOp) :
+    (empty.runOps (ops.map (SetOp.rename φ))).map (fun r => (r.1.toList, r.2)) =
+    (empty.runOps ops).map (fun r => (r.1.toList.map φ, r.2.map (Obs.rename φ))) := by
+  have := runOps_rename h ops empty
+  rw [mapS_empty] at this
+  rw [this]
+  cases empty.runOps ops with
+  | none => rfl
+  | some r => simp [toList_mapS]
+
+/-- a non-trivial renaming with equal hashes exists: `k ↦ k ± (2⁶¹ − 1)` away from zero -/
+example : HashIso shiftByModulus := shiftByModulus_hashIso
+
+/-- Every regenerated order-sensitive site has a reviewed key kind, every site that takes an element by table order
+(`pop`) is int-keyed — the container `Py/IntSet.lean` models —, and the only site that is not int-keyed iterates a set
+of int tuples (`_rings_filter`), whose hashes are the seed-free `pyHashTuple`.  Together with `hash_sites_seed_free`
+(no ordering decision hashes a string) and the determinism theorems above: the order seen at every reviewed site is
+the same in every process.  The run-time replay checks the `int` entries on every run (a logged set at such a site
+never receives a non-int key) and replays each site's real history through the model. -/
+theorem order_sites_key_kinds :
+    setOrderSites.map (fun s => (s.1, s.2.1, s.2.2.2)) = reviewedSetSiteKeys.map (fun r => (r.1, r.2.1, r.2.2.1)) ∧
+    (∀ s ∈ setOrderSites, s.2.2.1 = "pop" → (s.1, s.2.1, s.2.2.2, KeyKind.int) ∈ reviewedSetSiteKeys) ∧
+    (reviewedSetSiteKeys.filter (fun r => r.2.2.2 != KeyKind.int)).map (fun r => (r.2.1, r.2.2.2)) =
+      [("_rings_filter", KeyKind.intTuple)] := by
+  refine ⟨by decide +kernel, by decide +kernel, by decide +kernel⟩
+
+/-- the probe sequence of every key (`PS.start`, `PS.next`: the states `look`/`addScan`/`lookEmpty` walk through) stays
+inside a table of `mask + 1` slots: the model can only fail by running out of fuel, never by indexing outside the table -/
+theorem set_probe_stays_in_table (mask : Nat) (k : Int) (n : Nat) : (PS.nth mask k n).idx ≤ mask :=
+  PS.idx_le (PS.nth_valid mask k n)
 
 end ChythonModel.Props.C19
